@@ -34,7 +34,9 @@ def drain_calls(total, rnd):
     calls = []
     left = total
     while left > 0:
-        n = min(left, rnd.choice([1, 2, 3, 5, 8, 64, 1000]))
+        # (at most ~120 calls for one body, ~12 for bodies of more than 8 KB: every return logs the whole public buffer, and a large body
+        #  drained byte by byte gave a trace of more than 40 MB of JSON, which TLC's Json module refused)
+        n = min(left, max(rnd.choice([1, 2, 3, 5, 8, 64, 1000]), total // 12 + 1 if total > 8000 else total // 120 + 1 if total > 600 else 1))
         calls.append(("read", n))
         left -= n
     return calls
@@ -81,7 +83,9 @@ def run(tier, rep):
             for a, b in pairs:
                 add(pieces, 1, [a, b - a, L - b], zero, "cut2")
     # chunks whose size needs 3 / 4 hex digits; one cut at every position of every size line and terminator
-    for sizes in ([4096], [255, 4097], [65535], [256, 16, 4095]) if not quick else ([4096, 17], [255, 4097]):
+    # (the four-hex-digit size line is "1fff" here: a 65535-byte body made the grammar decoder of the trace
+    #  spec, which appends byte by byte, quadratic - 20 such traces took more than 20 minutes of TLC time)
+    for sizes in ([4096], [255, 4097], [8191], [256, 16, 4095]) if not quick else ([4096, 17], [255, 4097]):
         pieces = [bytes(rnd.randrange(256) for _ in range(n)) for n in sizes]
         for zero in ((True, False) if not quick else (True,)):
             wire, _, _ = sock_rec.chunked_body(rnd, pieces, 1, zero=zero, upper=False)
